@@ -17,7 +17,7 @@
 EXTENDS Num, FiniteSets, TLC, Json, IOUtils
 CONSTANTS Mode, MaxLen, MaxBatch
 
-Steps == {"S1", "S2", "S3", "CF", "CI", "R"}
+Steps == {"S1", "S2", "S3", "CF", "CR", "CI", "R"}      \* CR: complete the active trials in reverse order (parallel workers)
 BatchOf(s) == CASE s = "S1" -> 1 [] s = "S2" -> 2 [] s = "S3" -> 3 [] OTHER -> 0
 
 VARIABLES sched, active, done
@@ -26,7 +26,7 @@ Init == sched = <<>> /\ active = 0 /\ done = 0
 Step(s) ==
   /\ Len(sched) < MaxLen
   /\ CASE s \in {"S1", "S2", "S3"} -> BatchOf(s) <= MaxBatch /\ active' = active + BatchOf(s) /\ done' = done
-       [] s \in {"CF", "CI"} -> active > 0 /\ active' = 0 /\ done' = done + active
+       [] s \in {"CF", "CR", "CI"} -> active > 0 /\ active' = 0 /\ done' = done + active
        [] s = "R" -> sched # <<>> /\ sched[Len(sched)] # "R" /\ active' = active /\ done' = done
   /\ sched' = Append(sched, s)
 Next == Mode = "enumerate" /\ \E s \in Steps : Step(s)
